@@ -181,7 +181,12 @@ var skipChunkShapes = []struct {
 	{"3-0-7", []int{3, 0, 7}, true, nil},
 	{"fit+err", []int{-1}, false, errInjected},
 	{"2byte+unexpectedeof", []int{2}, true, io.ErrUnexpectedEOF},
+	{"3byte+wrapped-protocol-exception", []int{3}, false, errWrappedPE},
 }
+
+// a source error that itself wraps a protocol exception (a framing layer below reporting its own decode failure):
+// the stream readers must still hand back THIS error (errors.Is), not the exception buried in it
+var errWrappedPE = fmt.Errorf("transport: read frame: %w", thrift.NewProtocolException(thrift.INVALID_DATA, "bad magic"))
 
 // runSkippers executes every skipping facility on (b, t). full=false runs only the allocation-free ones.
 func runSkippers(b []byte, t int8, full bool, shapes int) []skipRes {
